@@ -24,6 +24,8 @@ Empty == [scen |-> "", engine |-> "", srcs |-> {}, feats |-> {}, maxRetries |-> 
           startOpen |-> FALSE,    \* a Start call is in flight
           sinceStart |-> [stopOk |-> FALSE, stopAll |-> FALSE, force |-> FALSE, opens |-> 0, recOpens |-> 0,
                           degraded |-> FALSE],
+          stopArmed |-> FALSE,    \* a stop call was issued while the pipeline was reported running, with a live
+                                  \* run and no start in flight, and nothing has happened to the run since
           recPending |-> FALSE,   \* status Recovering was written and the recovery restart has not opened the source yet
           restartCheck |-> FALSE, storeFaults |-> FALSE, bad |-> FALSE]
 
@@ -44,16 +46,19 @@ Reset ==
               !.minUs = IF "min_delay_ms" \in DOMAIN Ev THEN Ev.min_delay_ms * 1000 ELSE 0,
               !.storeFaults = "store-fault" \in ToSet(Ev.features)]
 
+SrcLive == \E s \in st.srcs : Get(st.live, s) > 0
+
 Call ==
   /\ IsEvent("Call")
   /\ st' = IF Ev.call = "Start"
-             THEN [st EXCEPT !.startCalls = @ + 1, !.startOpen = TRUE, !.sinceStart = Fresh]
+             \* a user Start while a recovery restart is pending: the next open is the user's, not recovery's
+             THEN [st EXCEPT !.startCalls = @ + 1, !.startOpen = TRUE, !.sinceStart = Fresh, !.recPending = FALSE]
            ELSE IF Ev.call = "StopAll" THEN [st EXCEPT !.sinceStart.stopAll = TRUE]
-           ELSE IF Ev.call = "ForceStop" THEN [st EXCEPT !.sinceStart.force = TRUE]
+           ELSE IF Ev.call \in {"Stop", "StopAndWait", "ForceStop"}
+             THEN [st EXCEPT !.sinceStart.force = @ \/ Ev.call = "ForceStop",
+                             !.stopArmed = Ev.reported = "Running" /\ ~st.startOpen /\ SrcLive]
            ELSE st
   /\ UNCHANGED viol
-
-SrcLive == \E s \in st.srcs : Get(st.live, s) > 0
 
 Ret ==
   /\ IsEvent("Ret")
@@ -66,7 +71,7 @@ Ret ==
           \* C11: while the pipeline is reported running (and nothing is starting or failing) a stop
           \* request acts on that run - it is not answered "not running"
           \cup (IF Ev.call \in {"Stop", "StopAndWait", "ForceStop"} /\ notRunning
-                  THEN Add(~(st.status = Running /\ ~st.startOpen /\ SrcLive), "StopHitsLive", Ev.err.msg)
+                  THEN Add(~st.stopArmed, "StopHitsLive", Ev.err.msg)
                   ELSE {})
           \* C11: wait returns only once the run it waited for has ended, with that run's result
           \cup (IF Ev.call = "WaitPipeline" /\ st.startCalls > 0
@@ -79,7 +84,7 @@ Ret ==
 Durable ==
   /\ IsEvent("Durable")
   /\ IF Ev.class = "pipeline" /\ ~("del" \in DOMAIN Ev)
-       THEN /\ st' = [st EXCEPT !.status = Ev.status,
+       THEN /\ st' = [st EXCEPT !.status = Ev.status, !.stopArmed = FALSE,
                                 !.statusT = IF Ev.status = Recovering THEN Ev.t ELSE @,
                                 !.recPending = IF Ev.status = Recovering THEN TRUE
                                                ELSE IF Ev.status \in {Degraded, UserStopped, SystemStopped} THEN FALSE ELSE @,
@@ -122,7 +127,9 @@ Open ==
 
 Teardown ==
   /\ IsEvent("Teardown")
-  /\ st' = IF Get(st.live, Ev.key) > 0 THEN [st EXCEPT !.live = Put(@, Ev.key, Get(@, Ev.key) - 1)] ELSE st
+  /\ st' = IF Get(st.live, Ev.key) > 0
+             THEN [st EXCEPT !.live = Put(@, Ev.key, Get(@, Ev.key) - 1), !.stopArmed = FALSE]
+             ELSE [st EXCEPT !.stopArmed = FALSE]
   /\ UNCHANGED viol
 
 RestartCheck == IsEvent("RestartCheck") /\ st' = [st EXCEPT !.restartCheck = TRUE] /\ UNCHANGED viol
@@ -159,7 +166,7 @@ End ==
 
 Hang  == IsEvent("Hang")  /\ viol' = viol \cup {V("NoHang", Ev.call)} /\ UNCHANGED st
 Panic == IsEvent("Panic") /\ viol' = viol \cup {V("NoPanic", Ev.stderr)} /\ UNCHANGED st
-Fault == IsEvent("Fault") /\ UNCHANGED <<st, viol>>
+Fault == IsEvent("Fault") /\ st' = [st EXCEPT !.stopArmed = FALSE] /\ UNCHANGED viol
 Restore == IsEvent("Restore") /\ st' = [st EXCEPT !.live = <<>>] /\ UNCHANGED viol
 HarnessError == (IsEvent("HarnessError") \/ IsEvent("ChildTimeout")) /\ st' = [st EXCEPT !.bad = TRUE] /\ UNCHANGED viol
 Other == l <= Len(Trace) /\ Ev.ev \notin Known /\ l' = l + 1 /\ UNCHANGED <<st, viol>>
